@@ -741,7 +741,11 @@ pub fn untouched_diff(before: &v1::Instance, after: &v1::Instance, variables_too
         if before.decision_variables.len() != after.decision_variables.len() {
             out.push("decision_variables");
         } else {
-            for (b, a) in before.decision_variables.iter().zip(&after.decision_variables) {
+            for b in before.decision_variables.iter() {
+                let Some(a) = after.decision_variables.iter().find(|a| a.id == b.id) else {
+                    out.push("decision_variables");
+                    break;
+                };
                 let mut b2 = b.clone();
                 b2.substituted_value = a.substituted_value;
                 if &b2 != a {
